@@ -231,7 +231,7 @@ CLAIMS["C17"] = {
 CLAIMS["C18"] = {
     "text": "Theorem C18_parse_eq_spec: for every list of grpc-timeout header values (arbitrary bytes, arbitrary length) the model of timeoutFromHeaders returns exactly what the "
             "gRPC wire specification prescribes (1-8 digits + unit, saturating at 2^63-1 ns; malformed => no deadline), with corollaries C18_wellformed, C18_malformed, "
-            "C18_saturates. The model is tied to the code by running VerifTimeoutFromHeaders and the Lean definition on >20k boundary and random inputs per run; the deadline's "
+            "C18_saturates, C18_last_wins, C18_exact, C18_clamped, C18_monotone. The model is tied to the code by running VerifTimeoutFromHeaders and the Lean definition on >20k boundary and random inputs per run; the deadline's "
             "effect on the handler context is checked in the S- and W1 worlds.",
     "design_ref": "DESIGN.md A2 (C18), A4 (D7)",
     "note": "Trusted: Lean kernel; transcription of the gRPC timeout grammar into Timeout.spec; the differential harness. Modelled, not proved: that context.WithTimeout(parsed) is the handler's deadline.",
